@@ -827,29 +827,12 @@ impl<'s> Semantics<'s> {
         0F BA /4 ib BT r/m32,imm8 3/6 Save bit in carry flag
     */
     pub fn bt(&self, control_flow_graph: &mut ControlFlowGraph) -> Result<(), Error> {
-        let detail = self.details()?;
-
         // create our head block
         let block_index = {
             let block = control_flow_graph.new_block()?;
 
             // get started
-            let base = self.operand_load(block, &detail.operands[0])?;
-            let mut offset = self.operand_load(block, &detail.operands[1])?;
-
-            // let's ensure we have equal sorts
-            if offset.bits() != base.bits() {
-                let temp = self.temp(0, base.bits());
-                block.assign(temp.clone(), Expr::zext(base.bits(), offset.clone())?);
-                offset = temp.into();
-            }
-
-            // a register base or an immediate offset select a bit modulo the operand size
-            if detail.operands[0].type_ == x86_op_type::X86_OP_REG
-                || detail.operands[1].type_ == x86_op_type::X86_OP_IMM
-            {
-                offset = Expr::and(offset, expr_const(base.bits() as u64 - 1, base.bits()))?;
-            }
+            let (base, offset, _) = self.bit_test_operands(block)?;
 
             let temp = self.temp(0, base.bits());
             block.assign(temp.clone(), Expr::shr(base, offset)?);
@@ -885,22 +868,7 @@ impl<'s> Semantics<'s> {
             let block = control_flow_graph.new_block()?;
 
             // get started
-            let base = self.operand_load(block, &detail.operands[0])?;
-            let mut offset = self.operand_load(block, &detail.operands[1])?;
-
-            // let's ensure we have equal sorts
-            if offset.bits() != base.bits() {
-                let temp = self.temp(0, base.bits());
-                block.assign(temp.clone(), Expr::zext(base.bits(), offset.clone())?);
-                offset = temp.into();
-            }
-
-            // a register base or an immediate offset select a bit modulo the operand size
-            if detail.operands[0].type_ == x86_op_type::X86_OP_REG
-                || detail.operands[1].type_ == x86_op_type::X86_OP_IMM
-            {
-                offset = Expr::and(offset, expr_const(base.bits() as u64 - 1, base.bits()))?;
-            }
+            let (base, offset, address) = self.bit_test_operands(block)?;
 
             // this handles the assign to CF
             let temp = self.temp(1, base.bits());
@@ -909,7 +877,10 @@ impl<'s> Semantics<'s> {
 
             let expr = Expr::shl(expr_const(1, base.bits()), offset)?;
             let expr = Expr::xor(base, expr)?;
-            self.operand_store(block, &detail.operands[0], expr)?;
+            match address {
+                Some(address) => block.store(address, expr),
+                None => self.operand_store(block, &detail.operands[0], expr)?,
+            }
 
             block.index()
         };
@@ -941,22 +912,7 @@ impl<'s> Semantics<'s> {
             let block = control_flow_graph.new_block()?;
 
             // get started
-            let base = self.operand_load(block, &detail.operands[0])?;
-            let mut offset = self.operand_load(block, &detail.operands[1])?;
-
-            // let's ensure we have equal sorts
-            if offset.bits() != base.bits() {
-                let temp = self.temp(0, base.bits());
-                block.assign(temp.clone(), Expr::zext(base.bits(), offset.clone())?);
-                offset = temp.into();
-            }
-
-            // a register base or an immediate offset select a bit modulo the operand size
-            if detail.operands[0].type_ == x86_op_type::X86_OP_REG
-                || detail.operands[1].type_ == x86_op_type::X86_OP_IMM
-            {
-                offset = Expr::and(offset, expr_const(base.bits() as u64 - 1, base.bits()))?;
-            }
+            let (base, offset, address) = self.bit_test_operands(block)?;
 
             // this handles the assign to CF
             let temp = self.temp(1, base.bits());
@@ -967,7 +923,10 @@ impl<'s> Semantics<'s> {
             let expr = Expr::xor(expr, expr_const(0xffff_ffff_ffff_ffff, base.bits()))?;
             let expr = Expr::and(base, expr)?;
 
-            self.operand_store(block, &detail.operands[0], expr)?;
+            match address {
+                Some(address) => block.store(address, expr),
+                None => self.operand_store(block, &detail.operands[0], expr)?,
+            }
 
             block.index()
         };
@@ -999,22 +958,7 @@ impl<'s> Semantics<'s> {
             let block = control_flow_graph.new_block()?;
 
             // get started
-            let base = self.operand_load(block, &detail.operands[0])?;
-            let mut offset = self.operand_load(block, &detail.operands[1])?;
-
-            // let's ensure we have equal sorts
-            if offset.bits() != base.bits() {
-                let temp = self.temp(0, base.bits());
-                block.assign(temp.clone(), Expr::zext(base.bits(), offset.clone())?);
-                offset = temp.into();
-            }
-
-            // a register base or an immediate offset select a bit modulo the operand size
-            if detail.operands[0].type_ == x86_op_type::X86_OP_REG
-                || detail.operands[1].type_ == x86_op_type::X86_OP_IMM
-            {
-                offset = Expr::and(offset, expr_const(base.bits() as u64 - 1, base.bits()))?;
-            }
+            let (base, offset, address) = self.bit_test_operands(block)?;
 
             // this handles the assign to CF
             let temp = self.temp(1, base.bits());
@@ -1024,7 +968,10 @@ impl<'s> Semantics<'s> {
             let expr = Expr::shl(expr_const(1, base.bits()), offset)?;
             let expr = Expr::or(base, expr)?;
 
-            self.operand_store(block, &detail.operands[0], expr)?;
+            match address {
+                Some(address) => block.store(address, expr),
+                None => self.operand_store(block, &detail.operands[0], expr)?,
+            }
 
             block.index()
         };
@@ -1033,6 +980,67 @@ impl<'s> Semantics<'s> {
         control_flow_graph.set_exit(block_index)?;
 
         Ok(())
+    }
+
+    /// Loads the operands of bt/btc/btr/bts: the base value, the bit offset within it and,
+    /// when it had to be computed here, the address of the base. A register base or an
+    /// immediate offset select a bit modulo the operand size. With a memory base and a
+    /// register offset the operand is a bit string: the signed offset divided by the operand
+    /// size selects the word, doubleword or quadword relative to the effective address, the
+    /// remainder selects the bit.
+    fn bit_test_operands(
+        &self,
+        block: &mut Block,
+    ) -> Result<(Expression, Expression, Option<Expression>), Error> {
+        let detail = self.details()?;
+
+        if detail.operands[0].type_ == x86_op_type::X86_OP_MEM
+            && detail.operands[1].type_ == x86_op_type::X86_OP_REG
+        {
+            let bits = detail.operands[0].size as usize * 8;
+            let offset = self.operand_load(block, &detail.operands[1])?;
+            let address = self
+                .mode()
+                .operand_value(&detail.operands[0], self.instruction())?;
+
+            let unit = Expr::ashr(
+                offset.clone(),
+                expr_const(bits.trailing_zeros() as u64, offset.bits()),
+            )?;
+            let unit = if unit.bits() < address.bits() {
+                Expr::sext(address.bits(), unit)?
+            } else {
+                unit
+            };
+            let displacement = Expr::mul(unit, expr_const((bits / 8) as u64, address.bits()))?;
+
+            let unit_address = self.temp(2, address.bits());
+            block.assign(unit_address.clone(), Expr::add(address, displacement)?);
+            let base = self.temp(3, bits);
+            block.load(base.clone(), unit_address.clone().into());
+
+            let offset = Expr::and(offset.clone(), expr_const(bits as u64 - 1, offset.bits()))?;
+            return Ok((base.into(), offset, Some(unit_address.into())));
+        }
+
+        let base = self.operand_load(block, &detail.operands[0])?;
+        let mut offset = self.operand_load(block, &detail.operands[1])?;
+
+        // let's ensure we have equal sorts
+        if offset.bits() != base.bits() {
+            let temp = self.temp(0, base.bits());
+            block.assign(temp.clone(), Expr::zext(base.bits(), offset.clone())?);
+            offset = temp.into();
+        }
+
+        // a register base or an immediate offset select a bit modulo the operand size
+        if detail.operands[0].type_ == x86_op_type::X86_OP_REG
+            || detail.operands[1].type_ == x86_op_type::X86_OP_IMM
+        {
+            offset = Expr::and(offset, expr_const(base.bits() as u64 - 1, base.bits()))?;
+        }
+
+        Ok((base, offset, None))
     }
 
     pub fn bswap(&self, control_flow_graph: &mut ControlFlowGraph) -> Result<(), Error> {
